@@ -223,6 +223,30 @@ def run(cmd, H):
                                     C["bad_length_rejected"] += 1
                             if is_union and via == "setter":
                                 observe_union(t, o, "after %s array assignment to option %s" % ("rejected" if raised else "accepted", f.name))
+                # buffer-protocol objects whose len() is not their byte count (multi-byte items, two dimensions), offered to byte arrays:
+                # whatever the setter makes of them (any exception is acceptable for a wrong-typed input), the object must never
+                # hold more than the capacity / another number of elements than the fixed length afterwards
+                if bytelike and cap >= 2:
+                    for form, val in (("memoryview_of_uint16", memoryview(np.arange(cap, dtype=np.uint16))),
+                                      ("memoryview_of_uint32", memoryview(np.arange(max(1, cap // 2), dtype=np.uint32))),
+                                      ("memoryview_2d", memoryview(np.zeros((cap, 3), dtype=np.uint8))),
+                                      ("memoryview_of_bytes", memoryview(b"m" * cap))):
+                        o = cls()
+                        C["array_probes"] += 1
+                        C["buffer_protocol_probes"] += 1
+                        raised = attempt(lambda: ns.set_attribute(o, f.name, val))
+                        try:
+                            held = ns.get_attribute(o, f.name)
+                            n_held = None if held is None else len(held)
+                        except Exception:
+                            n_held = None
+                        if n_held is not None and (n_held > cap or (not var and n_held != cap)):
+                            refute("after assigning a %s (%s) the field %s.%s [%s] holds %d elements" % (form, "raised " + raised if raised else "accepted", key, f.name, dt, n_held),
+                                   type=key, field=f.name, form=form, held=n_held)
+                        else:
+                            C["array_probes_ok"] += 1
+                        if is_union:
+                            observe_union(t, o, "after a %s assignment to option %s" % (form, f.name))
         # ------------------------------------------------------------------ C: union life cycle
         if is_union:
             o = cls()
